@@ -49,7 +49,7 @@ package goja
 //@   ensures len(*o.data) == size [shrunk-to-size]
 //@   ensures forall k int :: 0 <= k && k < size ==> same((*o.data)[k], old((*o.data)[k])) [elements-kept]
 
-//@ func (*objectGoSlice).putIdx bounds
+//@ func (*objectGoSlice).putIdx bounds overflow-checked
 //@   props C13
 //@   requires o != nil && idx >= 0
 
